@@ -1,6 +1,7 @@
 //! C01 completeness: every satisfied constraint system yields an accepted proof.
 use crate::curves::{Cv, CURVES};
 use crate::evidence::{guarded, Report, Violation};
+use crate::history::{self, Prior};
 use crate::program::{self, Dev, Env, Program};
 use crate::props::common::*;
 use crate::with_curve;
@@ -15,12 +16,16 @@ pub struct Case {
     /// None = shared capacity-64 generators
     pub caps: Option<(usize, usize)>,
     pub class: &'static str,
+    /// earlier library calls played on the same thread before the subject (non-initial state)
+    pub hist: Vec<Prior>,
 }
 
 #[derive(Debug)]
 pub enum Out {
     Accept { gates: usize, two_phase: bool },
     Bad { expected: String, observed: String },
+    /// the history could not be played (a panic in an earlier call is C08's business, not C01's)
+    Precond(String),
 }
 
 pub fn run_case<G: Cv>(env: &Env<G>, c: &Case, seed: u64) -> Out {
@@ -33,6 +38,17 @@ pub fn run_case<G: Cv>(env: &Env<G>, c: &Case, seed: u64) -> Out {
             (&bp_p, &bp_v)
         }
     };
+    if !c.hist.is_empty() {
+        let b = match history::base::<G>(env, seed) {
+            Ok(b) => b,
+            Err(e) => return Out::Precond(format!("history base: {}", e)),
+        };
+        for ev in &c.hist {
+            if let Err(m) = history::play::<G>(env, &b, ev, seed) {
+                return Out::Precond(format!("{} panicked: {}", ev.name(), m));
+            }
+        }
+    }
     let pr = match guarded(|| program::prove::<G>(&c.prog, &env.pc, bpp, seed, "c01", Dev::None)) {
         Ok(p) => p,
         Err(m) => return Out::Bad { expected: "prove returns Ok".into(), observed: format!("prove panicked: {}", m) },
@@ -73,14 +89,14 @@ pub fn cases(tier: Tier) -> (Vec<Case>, serde_json::Value) {
     let n_shape = progs.len();
     for (i, p) in progs.into_iter().enumerate() {
         match tier {
-            Tier::Quick => out.push(Case { curve: CURVES[i % 3], prog: p, caps: None, class: "shape" }),
+            Tier::Quick => out.push(Case { curve: CURVES[i % 3], prog: p, caps: None, class: "shape", hist: vec![] }),
             Tier::Thorough => {
                 // depth-4 layer: one curve per program (round-robin); everything shallower: all curves
                 if p.p1.len() == 4 || (p.p1.len() == 3 && p.closures.iter().any(|c| c.len() == 2)) {
-                    out.push(Case { curve: CURVES[i % 3], prog: p, caps: None, class: "shape" });
+                    out.push(Case { curve: CURVES[i % 3], prog: p, caps: None, class: "shape", hist: vec![] });
                 } else {
                     for c in CURVES {
-                        out.push(Case { curve: c, prog: p.clone(), caps: None, class: "shape" });
+                        out.push(Case { curve: c, prog: p.clone(), caps: None, class: "shape", hist: vec![] });
                     }
                 }
             }
@@ -100,7 +116,7 @@ pub fn cases(tier: Tier) -> (Vec<Case>, serde_json::Value) {
                     if tier == Tier::Quick && a != b && !(a == 0 && b == 3) && !(a == 3 && b == 0) {
                         continue;
                     }
-                    out.push(Case { curve: c, prog: p.clone(), caps: Some((*cp, *cv)), class: "size" });
+                    out.push(Case { curve: c, prog: p.clone(), caps: Some((*cp, *cv)), class: "size", hist: vec![] });
                     n_size += 1;
                 }
             }
@@ -118,8 +134,8 @@ pub fn cases(tier: Tier) -> (Vec<Case>, serde_json::Value) {
             if tier == Tier::Quick && ci != bi % 3 {
                 continue;
             }
-            out.push(Case { curve: c, prog: p.clone(), caps: Some((nh, nh)), class: "size" });
-            out.push(Case { curve: c, prog: p.clone(), caps: Some((nh + 1, 2 * nh)), class: "size" });
+            out.push(Case { curve: c, prog: p.clone(), caps: Some((nh, nh)), class: "size", hist: vec![] });
+            out.push(Case { curve: c, prog: p.clone(), caps: Some((nh + 1, 2 * nh)), class: "size", hist: vec![] });
             n_size += 2;
         }
     }
@@ -133,8 +149,27 @@ pub fn cases(tier: Tier) -> (Vec<Case>, serde_json::Value) {
                 }
                 let mut q = p.clone();
                 q.values = vals.clone();
-                out.push(Case { curve: c, prog: q, caps: None, class: "value" });
+                out.push(Case { curve: c, prog: q, caps: None, class: "value", hist: vec![] });
                 n_val += 1;
+            }
+        }
+    }
+    // non-initial states: every history of earlier calls (depth 1; depth 2 in the thorough tier)
+    // in front of a few subjects of different sizes and phase structure
+    let subjects: Vec<Program> = ["C M Ka", "C M Ka R[M Ka M]", "C Kd", "A A A R[A Kb]", "C C Xab R[Xca Kc]"].iter().map(|s| Program::parse(s).expect("subject")).collect();
+    let mut n_hist = 0;
+    let hdepth = if tier == Tier::Quick { 1 } else { 2 };
+    for d in 1..=hdepth {
+        for (hi, h) in history::histories(d).into_iter().enumerate() {
+            for (si, sp) in subjects.iter().enumerate() {
+                for (ci, c) in CURVES.iter().enumerate() {
+                    // depth 2: one curve per (history, subject), round-robin
+                    if d == 2 && (hi + si + ci) % 3 != 0 {
+                        continue;
+                    }
+                    out.push(Case { curve: c, prog: sp.clone(), caps: None, class: "history", hist: h.clone() });
+                    n_hist += 1;
+                }
             }
         }
     }
@@ -146,6 +181,10 @@ pub fn cases(tier: Tier) -> (Vec<Case>, serde_json::Value) {
         "size_family": format!("S({}) x kinds {{APairs,AOdd,M,X}} x capacity pairs from {{n^, n^+1, 2n^, 64}}", sn),
         "size_cases": n_size,
         "value_cases": n_val,
+        "history_cases": n_hist,
+        "history_alphabet": history::alphabet().iter().map(|p| p.name()).collect::<Vec<_>>(),
+        "history_depth": hdepth,
+        "history_subjects": subjects.iter().map(|p| p.name()).collect::<Vec<_>>(),
         "value_alphabet": crate::alphabet::VAL_NAMES,
     });
     (out, bounds)
@@ -159,7 +198,7 @@ pub fn main(o: &Opts) -> i32 {
     let (cs, bounds) = cases(o.tier);
     rep.bounds = bounds;
     rep.curves = CURVES.iter().map(|s| s.to_string()).collect();
-    rep.rule = "every call sequence of the program space (every prefix is itself a program), every member of the size family with each capacity pair, every value-template x VAL^k; each case = real prove then real verify of a satisfied system; non-trivial = distinct (curve, program, capacities) with at least one constraint or gate".into();
+    rep.rule = "every call sequence of the program space (every prefix is itself a program), every member of the size family with each capacity pair, every value-template x VAL^k; every history of earlier calls on the same thread (error paths included) in front of five subjects; each case = real prove then real verify of a satisfied system; non-trivial = distinct (curve, program, capacities) with at least one constraint or gate".into();
     let start = rep.start;
     let mut all = vec![];
     for curve in CURVES {
@@ -185,12 +224,16 @@ pub fn main(o: &Opts) -> i32 {
                 rep.count(&format!("accept/{}/{}", c.class, if *two_phase { "2phase" } else { "1phase" }), 1);
                 rep.count(&format!("gates={}", gates.max(&0)), 1);
             }
+            Some(Out::Precond(m)) => {
+                rep.evaluations += 1;
+                rep.count(&format!("precondition: history not playable ({})", m.split(':').next().unwrap_or("")), 1);
+            }
             Some(Out::Bad { expected, observed }) => {
                 rep.evaluations += 1;
                 rep.count("violation", 1);
                 rep.violation(Violation {
-                    key: json!({"curve": c.curve, "program": c.prog.name(), "caps": c.caps}),
-                    case: json!({"curve": c.curve, "program": c.prog.name(), "caps": c.caps.map(|x| vec![x.0, x.1])}),
+                    key: json!({"curve": c.curve, "program": c.prog.name(), "caps": c.caps, "history": history::hist_name(&c.hist)}),
+                    case: json!({"curve": c.curve, "program": c.prog.name(), "caps": c.caps.map(|x| vec![x.0, x.1]), "history": history::hist_name(&c.hist)}),
                     expected: expected.clone(),
                     observed: observed.clone(),
                     note: "satisfied constraint system".into(),
@@ -218,7 +261,8 @@ pub fn replay(path: &str, o: &Opts) -> i32 {
     let curve: &'static str = CURVES.iter().find(|c| **c == case["curve"].as_str().unwrap()).expect("curve");
     let prog = Program::parse(case["program"].as_str().unwrap()).expect("program");
     let caps = case["caps"].as_array().map(|a| (a[0].as_u64().unwrap() as usize, a[1].as_u64().unwrap() as usize));
-    let c = Case { curve, prog, caps, class: "replay" };
+    let hist = history::parse_hist(case["history"].as_str().unwrap_or("")).expect("history");
+    let c = Case { curve, prog, caps, class: "replay", hist };
     let seed = v["seed"].as_u64().unwrap_or(o.seed);
     let run = || with_curve!(curve, G => { let env = Env::<G>::new(64); format!("{:?}", run_case::<G>(&env, &c, seed)) });
     let a = run();
